@@ -64,12 +64,52 @@ def literals(path: Path):
     return sorted(out)
 
 
+SRC = ROOT / "anchors_src"
+
+
 def lock(repo):
     files = sorted({f for fs in anchors().values() for f in fs})
     d = {f: norm_hash(Path(repo) / f) for f in files}
     d["__literals__"] = {f: literals(Path(repo) / f) for f in files}
     LOCK.write_text(json.dumps(d, indent=1) + "\n")
+    # a copy of the anchored Rust sources at the validated tree (for the changed-line coverage obligation)
+    import shutil
+    if SRC.exists():
+        shutil.rmtree(SRC)
+    for f in files:
+        if f.endswith(".rs") and not f.endswith("table.rs") and (Path(repo) / f).exists():
+            (SRC / f).parent.mkdir(parents=True, exist_ok=True)
+            shutil.copy(Path(repo) / f, SRC / f)
     print(f"locked {len(files)} files")
+
+
+def _code(line):
+    return re.sub(r"\s+", " ", re.sub(r"//.*", "", line)).strip()
+
+
+def changed_lines(prop, repo):
+    """{file: [(line number in the CURRENT file, text)]}: lines of the anchored Rust files of `prop` that are new or modified
+    with respect to the validated tree and hold code (comments, blank lines, braces and #[cfg(test)] modules ignored)"""
+    import difflib
+    out = {}
+    for f in anchors().get(prop, []):
+        old_p, new_p = SRC / f, Path(repo) / f
+        if not old_p.exists() or not new_p.exists():
+            continue
+        old = old_p.read_text(errors="replace").split("\n")
+        new = new_p.read_text(errors="replace").split("\n")
+        cut = next((i for i, l in enumerate(new) if l.strip().startswith("#[cfg(test)]")), len(new))
+        sm = difflib.SequenceMatcher(a=[_code(l) for l in old], b=[_code(l) for l in new], autojunk=False)
+        lines = []
+        for tag, i1, i2, j1, j2 in sm.get_opcodes():
+            if tag in ("replace", "insert"):
+                for j in range(j1, j2):
+                    c = _code(new[j])
+                    if j < cut and c and c not in ("{", "}", "};", "})", "});", "),", ")", "]", "],", "else {", "} else {") and not c.startswith(("#[", "use ", "///", "//!", "*", "/*")):
+                        lines.append((j + 1, new[j].strip()))
+        if lines:
+            out[f] = lines
+    return out
 
 
 def dictionary(prop, repo):
